@@ -1,4 +1,6 @@
-\* negotiation-focused: every DAG on 3 commits, one tree, no tags; all sender heads x receiver heads x wants x ack modes
+\* negotiation-focused (quick + thorough): every DAG on 3 commits, one tree, no tags; sender heads x receiver heads x wants x ack mode x 'sender keeps unreferenced objects' x forged wants; all have/ACK interleavings
+\* (harness/props/c05.py writes the same configuration at run time; TransferCases uses the same constants
+\*  plus SampleMod / SampleSeed)
 SPECIFICATION Spec
 CONSTANTS
   NC = 3
